@@ -1,3 +1,5 @@
+//go:build verif
+
 // Package c01: core evaluation follows the language rules for order, binding
 // and control. Exhaustive enumeration of programs built from form templates
 // with typed holes (deviation-bounded nesting), each run on the real slip and
@@ -7,6 +9,9 @@ package c01
 
 import (
 	"fmt"
+	"os"
+	"runtime"
+	"runtime/pprof"
 	"sort"
 	"strings"
 	"time"
@@ -185,8 +190,10 @@ func traceKind(want, got []string) string {
 }
 
 // judge runs one term on the reference and on slip.
-func judge(t *term, prefix string) (v verdict) {
-	p := instantiate(t, prefix)
+func judge(t *term, prefix string) (v verdict) { return judgeRenaming(t, prefix, nil) }
+
+func judgeRenaming(t *term, prefix string, rename *term) (v verdict) {
+	p := instantiateRenaming(t, prefix, rename)
 	v.text = p.text()
 	r := newRef("", refBudgetSteps)
 	want, rerr := r.run(p.forms)
@@ -199,6 +206,11 @@ func judge(t *term, prefix string) (v verdict) {
 	v.want = showVal(want)
 	v.wantTr = r.trace
 	v.got = runSlip(v.text, slipLimit(r.steps))
+	// slip keeps every defined function in its package for ever (about 2 KB each): take this run's uniquely named
+	// functions out again, after the observation, so that a worker survives millions of cases
+	for i := 1; i <= p.nameSeq; i++ {
+		slip.VerifForgetFunction(slip.CurrentPackage, fmt.Sprintf("%sn%d", p.prefix, i))
+	}
 	switch {
 	case v.got.runaway:
 		v.kind = "runaway"
@@ -369,6 +381,26 @@ func exec(spec string) (res engine.Result) {
 		n := 0
 		newGenerator(genOpts{coreFrom: cf, spineFrom: sf, deepFrom: df, spine: sp == 1}).roots(dev, func(string) { n++ })
 		res.Outcome = fmt.Sprint(n)
+		return
+	case strings.HasPrefix(spec, "mem:"):
+		// mem:<n>:<term> - heap growth over n executions of one term under distinct specs (development aid)
+		var n int
+		var tm string
+		_, _ = fmt.Sscanf(spec, "mem:%d:%s", &n, &tm)
+		var m0, m1 runtime.MemStats
+		runtime.GC()
+		runtime.ReadMemStats(&m0)
+		t, _ := parseTerm(tm)
+		for i := 0; i < n; i++ {
+			judge(t, fmt.Sprintf("c01mem%d", i))
+		}
+		runtime.GC()
+		runtime.ReadMemStats(&m1)
+		if f, err := os.Create("/verif/.build/scratch/C01/heap.pprof"); err == nil {
+			_ = pprof.Lookup("heap").WriteTo(f, 0)
+			f.Close()
+		}
+		res.Outcome = fmt.Sprintf("heap growth %d bytes per run", (int64(m1.HeapAlloc)-int64(m0.HeapAlloc))/int64(n))
 		return
 	case strings.HasPrefix(spec, "bench:"):
 		res.Outcome = bench(spec[6:])
@@ -582,8 +614,42 @@ func attribute(t *term, prefix string, whole *verdict) (out []engine.Failure) {
 	if core.String() != t.String() {
 		d += from
 	}
+	// Triage by alpha-conversion: give the variables of one inner form fresh names. The meaning of the program
+	// does not change (checked: the reference must give the same value and trace). If slip then agrees with the
+	// reference, what fails is that a variable of that form is confused with a like-named variable elsewhere in
+	// the program - one defect, whatever the forms around it, so it is named by that inner form alone.
+	if sig, note := nameClash(core, &cv, prefix); sig != "" {
+		add(sig, d+note)
+		return
+	}
 	add(coreSig(core, cv.kind), d)
 	return
+}
+
+func nameClash(core *term, cv *verdict, prefix string) (sig, note string) {
+	var insts []*term
+	var walk func(n *term)
+	walk = func(n *term) {
+		if n != core && isTemplate(n) {
+			insts = append(insts, n)
+		}
+		for _, k := range n.kids {
+			walk(k)
+		}
+	}
+	walk(core)
+	for i, inst := range insts {
+		rv := judgeRenaming(core, fmt.Sprintf("%sa%d", prefix, i), inst)
+		if rv.skip != "" || rv.want != cv.want || !sameTrace(rv.wantTr, cv.wantTr) {
+			continue // not an alpha-conversion of this program (the instance has free variables)
+		}
+		if rv.ok {
+			tp := tmplByName[inst.kind]
+			return fmt.Sprintf("variable-name-clash inner=%s:%s kind=%s", tp.family, tp.name, cv.kind),
+				fmt.Sprintf(" [with the variables of the inner %s form renamed slip agrees: %s]", tp.name, rv.text)
+		}
+	}
+	return "", ""
 }
 
 func pairSig(outer *tmpl, i int, inner, kind string) string {
